@@ -79,6 +79,7 @@ func runC13(r *Run) {
 	writerSeq := r.checkWriterChunkOrder(P)
 	r.checkReaderLayout(P, writerSeq)
 	r.checkReaderCountsMismatchOnly(P)
+	r.checkWriterProofPresence(P)
 	// --- layout: proof / index writers
 	type listSpec struct{ fn, field, want string }
 	for _, ls := range []listSpec{
@@ -1041,4 +1042,55 @@ func loopOverLiteral(phi *ssa.Phi) ([]ssa.Value, *ssa.Call) {
 		out = append(out, e.v)
 	}
 	return out, app
+}
+
+// checkWriterProofPresence: the writer-side sibling of the reader's presence
+// table — a proof file is written exactly when there are entries that need it:
+// the "no file" return is reachable only across count = 0 and the CAS write is
+// unreachable across count = 0.
+func (r *Run) checkWriterProofPresence(P string) {
+	for _, sp := range []struct{ fn, empty, what string }{
+		{"OperationHandler.createCoreProofFile", "cmp((len($1) + len($2)) == 0)", "core proof file ⇔ recover + deactivate entries"},
+		{"OperationHandler.createProvisionalProofFile", "cmp(len($1) == 0)", "provisional proof file ⇔ update entries"},
+	} {
+		f := r.fn(P, pkgProvider, sp.fn)
+		if f == nil {
+			continue
+		}
+		ff := r.E.Facts(f, core.Ctx{})
+		writes := r.callsIn(f, "OperationHandler.writeModelToCAS")
+		good := len(writes) == 1
+		var det []string
+		nonEmpty := strings.Replace(sp.empty, "== 0)", "!= 0)", 1)
+		for _, w := range writes {
+			if r.reachableWithout(ff, w, []string{nonEmpty}) {
+				good = false
+				det = append(det, "the file is written although there are no entries that need it")
+			}
+		}
+		nSkip := 0
+		for _, ri := range ff.Returns() {
+			if ri.Class != core.RetSuccess {
+				continue
+			}
+			isWrite := false
+			for _, w := range writes {
+				for _, l := range phiLeaves(core.RetOp(ri.Ret, 0)) {
+					if ex, ok := l.(*ssa.Extract); ok && ex.Tuple == ssa.Value(w) {
+						isWrite = true
+					}
+				}
+			}
+			if isWrite {
+				continue
+			}
+			nSkip++
+			if r.reachableWithout(ff, ri.Ret, []string{sp.empty}) {
+				good = false
+				det = append(det, "no file is written although entries need it")
+			}
+		}
+		r.R.Check(good && nSkip >= 1, P+".presence.writer."+strings.TrimPrefix(sp.fn, "OperationHandler."), "E8 sibling (writer ↔ reader presence table): "+sp.what, core.FuncName(f), r.where(f),
+			"the reader rejects a proof reference without entries and entries without their proof reference: a writer that disagrees produces batches that do not read back", "file written iff entries exist", strings.Join(det, "; "))
+	}
 }
